@@ -57,10 +57,10 @@ func envAdd(path string, n vNode) {
 }
 
 func envMkdir(path string, perm uint32, mtime int64) {
-	envAdd(path, vNode{kind: vDir, perm: perm & 0777, mtime: mtime})
+	envAdd(path, vNode{kind: vDir, perm: perm & 07777, mtime: mtime})
 }
 func envWriteFile(path string, perm uint32, mtime int64, data string) {
-	envAdd(path, vNode{kind: vFile, perm: perm & 0777, mtime: mtime, data: data})
+	envAdd(path, vNode{kind: vFile, perm: perm & 07777, mtime: mtime, data: data})
 }
 func envSymlink(path, target string, mtime int64) {
 	verif.Assume(target != "") // symlink(2) refuses an empty target
